@@ -96,6 +96,27 @@ fn real_main(args: &[String]) -> i32 {
             };
             crate::core::init_process();
             let want = v["violation"]["class"].as_str().unwrap_or("").to_string();
+            if want == "hang" {
+                // the recorded violation is a run that never finishes: replay it under the same
+                // wall-clock bound the batch watchdog used
+                let (tx, rx) = std::sync::mpsc::channel();
+                let v2 = v.clone();
+                let id2 = id.to_string();
+                std::thread::spawn(move || {
+                    let check = check_by_id(&id2).unwrap();
+                    let _ = tx.send(replay_file(check.as_ref(), &v2, true));
+                });
+                return match rx.recv_timeout(std::time::Duration::from_secs(90)) {
+                    Err(_) => {
+                        println!("VIOLATION property={} replay={}", id, args[2]);
+                        println!("  reproduced: class=hang (no result within 90 s)");
+                        1
+                    }
+                    Ok(Ok(None)) => { println!("replay of {} finished normally on this tree", args[2]); 0 }
+                    Ok(Ok(Some(x))) => { println!("VIOLATION property={} replay={}", id, args[2]); println!("  run finished with class={} instead of hanging", x.class); 1 }
+                    Ok(Err(e)) => { eprintln!("HARNESS-ERROR replay: {e}"); 2 }
+                };
+            }
             match replay_file(check.as_ref(), &v, true) {
                 Err(e) => {
                     eprintln!("HARNESS-ERROR replay: {e}");
